@@ -41,6 +41,8 @@ pub const DYN: f64 = 1e-4;
 /// |off| > eps·(|d00| + |d11|). Both hold together only if |d00| + |d11| < 1, i.e. λ_a + λ_b < (max entry) <= λ₁.
 /// Observed on the fixed tree: (λ_a + λ_b)/λ₁ between 1e-5 and 2.6e-2.
 pub const MISPAIR_SUM: f64 = 1.0;
+/// Known finding `eigenvector-pair-rotated`: largest in-plane rotation recognised (observed 5e-3 and 2.9e-2 rad).
+pub const ROT_MAX: f64 = 0.1;
 /// Known finding `inconsistent-components`: smallest requested eigenvalue below GARBAGE_TAIL·λ₁ (observed on the
 /// fixed tree: 1.7e-6 and 1.2e-5).
 pub const GARBAGE_TAIL: f64 = 1e-4;
@@ -417,30 +419,50 @@ pub fn check_pca(c: &Case, obs: &mut Obs) {
             )),
         );
     }
-    // (C) `eigenvector-pair-rotated` (about 1 fit in 10^6, full-space path): the answer is exact except that two
-    //     components a < b are rotated inside the plane of their two eigenvectors by more than the tolerance allows
-    //     (observed 5e-3 and 3e-2 rad on the two leading components): both lie in span{e_a, e_b} of the reference
-    //     eigenvectors (residual outside that plane <= RESID_MAX), all other components are eigenvectors on their own
-    //     scale, rows unit-scaled and mutually orthogonal, values sorted and equal to the eigenvalues of their rank.
+    // (C) `eigenvector-pair-rotated` (about 1 fit in 10^6, full-space path): the solver returns the exact
+    //     decomposition except that two of its vectors a < b span the right eigen-plane span{e_a, e_b} but are
+    //     rotated inside it by a small angle θ (observed 5e-3 and 3e-2 rad, on the two leading components).
+    //     Since 7f3797e linfa publishes sigma_j = |Xc v_j| (rows normalised, re-sorted), so what must be seen is:
+    //       * every other component: eigenvector on its own scale, sigma_j^2/(n-1) = λ_j = its own variance;
+    //       * v_a, v_b: unit rows, mutually orthogonal, out-of-plane part <= RESID_MAX, θ <= ROT_MAX;
+    //       * sigma_a^2/(n-1), sigma_b^2/(n-1) are the Rayleigh quotients of the rotated vectors,
+    //         q_a = cos²θ·λ_a + sin²θ·λ_b and q_b = sin²θ·λ_a + cos²θ·λ_b (so they miss λ_a, λ_b by sin²θ·(λ_a−λ_b));
+    //       * the two scores are correlated with cov(z_a, z_b) = v_a^T C v_b = ±sinθ·cosθ·(λ_a − λ_b), all other score
+    //         covariances vanish.
+    //     Anything that departs from this picture falls through to the ordinary obligations.
     let mut rotated: Option<(usize, usize, f64)> = None;
-    if mispair.is_none() && in_range && small_problem && sorted && leading_ok && unit_rows && kk == k && evecs.len() == p {
+    if mispair.is_none() && in_range && small_problem && sorted && unit_rows && kk == k && evecs.len() == p {
+        let close = |x: f64, y: f64| (x - y).abs() <= RESID_MAX * y.abs();
         // which components fail to be eigenvectors on their own scale
         let bad: Vec<usize> = (0..kk)
             .filter(|&j| {
-                let r2: f64 = cus[j].iter().zip(&dirs[j]).map(|(a, b)| (a - qs[j] * b).powi(2)).sum();
+                let r2: f64 = cus[j].iter().zip(&dirs[j]).map(|(x, y)| (x - qs[j] * y).powi(2)).sum();
                 r2.sqrt() > RESID_MAX * qs[j].abs()
             })
             .collect();
         if let [a, b] = bad.as_slice() {
             let (a, b) = (*a, *b);
             let coord = |j: usize, m: usize| -> f64 { evecs[m].iter().zip(&dirs[j]).map(|(x, y)| x * y).sum() };
-            let in_plane = |j: usize| {
-                let (ca, cb) = (coord(j, a), coord(j, b));
-                (1.0 - (ca * ca + cb * cb)).abs() <= RESID_MAX
-            };
-            let uu: f64 = dirs[a].iter().zip(&dirs[b]).map(|(x, y)| x * y).sum();
-            if in_plane(a) && in_plane(b) && uu.abs() <= TAU {
-                rotated = Some((a, b, coord(a, b).abs().max(coord(b, a).abs())));
+            let (caa, cab, cba, cbb) = (coord(a, a), coord(a, b), coord(b, a), coord(b, b));
+            let in_plane = (1.0 - (caa * caa + cab * cab)).abs() <= RESID_MAX && (1.0 - (cba * cba + cbb * cbb)).abs() <= RESID_MAX;
+            let dot = |i: usize, j: usize| -> f64 { dirs[i].iter().zip(&dirs[j]).map(|(x, y)| x * y).sum() };
+            let cdot = |i: usize, j: usize| -> f64 { dirs[i].iter().zip(&cus[j]).map(|(x, y)| x * y).sum() };
+            let angle = cab.abs().max(cba.abs());
+            // the rest of the answer is exact
+            let others_exact = (0..kk).filter(|j| *j != a && *j != b).all(|j| close(l[j], lam[j]) && close(l[j], qs[j]));
+            let others_orthogonal = (0..kk).all(|i| {
+                (i + 1..kk).all(|j| {
+                    (i, j) == (a, b) || (dot(i, j).abs() <= TAU && cdot(i, j).abs() <= TAU * (qs[i].abs() * qs[j].abs()).sqrt())
+                })
+            });
+            // published values and score covariance of the pair are those of the rotated vectors
+            let qa = caa * caa * lam[a] + cab * cab * lam[b];
+            let qb = cba * cba * lam[a] + cbb * cbb * lam[b];
+            let values_match = close(l[a], qa) && close(l[b], qb) && close(l[a], qs[a]) && close(l[b], qs[b]);
+            let cov_ab = caa * cba * lam[a] + cab * cbb * lam[b];
+            let cov_match = (cdot(a, b) - cov_ab).abs() <= RESID_MAX * (qs[a].abs() * qs[b].abs()).sqrt();
+            if in_plane && dot(a, b).abs() <= TAU && angle <= ROT_MAX && others_exact && others_orthogonal && values_match && cov_match {
+                rotated = Some((a, b, angle));
             }
         }
     }
@@ -891,7 +913,7 @@ pub fn property() -> Property {
             "inverse_transform(transform(X)) is required to be the orthogonal projection about the mean for whitened models too (the statement quantifies over whitening on/off; DESIGN restricted it to un-whitened models)".into(),
             format!("design domain singular ratio <= 1e3: when lambda_k < {RANGE_MIN:e}*lambda_1 (sampling fluctuation, n close to p) only the solver-independent obligations are judged (class beyond_singular_ratio_1e3); data with (n-1)*lambda_1 < {SCALE_MIN:e} (reachable only by shrinking) is not judged"),
             format!("PCA exposes no convergence flag; every obligation is evaluated on whatever fit returns, with one exception: outside 5k > p, a result that the independent residual shows unconverged on a component's own scale, that is a genuine set of Ritz pairs and misses the lambda_1-scaled optimality tolerances by at most a factor {NOT_CONVERGED_SLACK} is counted as not judged (LOBPCG stopped at its iteration limit 2n)"),
-            format!("known findings are recognised only under the exact precondition of the external defect: pca:solver-breakdown:eigenpairs-misassigned = full-space path (5k > min(n,p)) and the answer is the exact decomposition up to ONE transposition: all components eigenvectors with unit-scaled mutually (C-)orthogonal rows, all sigma_j^2/(n-1) sorted and equal to the eigenvalue of their rank, every component carrying its own variance except one pair (a,b) with lambda_a + lambda_b < {MISPAIR_SUM}*lambda_1 (necessary condition of the skipped 2x2 rotation in linfa-linalg symmetric_eig) carrying each other's (b may be truncated away); pca:solver-breakdown:inconsistent-components = full-space path, lambda_k < {GARBAGE_TAIL:e}*lambda_1, a component that is no eigenvector within {RESID_MAX:e} of its own variance and no member of a set of Ritz pairs; pca:solver-breakdown:eigenvector-pair-rotated = full-space path, exact answer except two components rotated inside the plane of their own two eigenvectors; every other deviation fails under the ordinary signatures (pca:singular-value, pca:subspace, pca:retained-variance, pca:whitened-covariance, ...)"),
+            format!("known findings are recognised only under the exact precondition of the external defect: pca:solver-breakdown:eigenpairs-misassigned = full-space path (5k > min(n,p)) and the answer is the exact decomposition up to ONE transposition: all components eigenvectors with unit-scaled mutually (C-)orthogonal rows, all sigma_j^2/(n-1) sorted and equal to the eigenvalue of their rank, every component carrying its own variance except one pair (a,b) with lambda_a + lambda_b < {MISPAIR_SUM}*lambda_1 (necessary condition of the skipped 2x2 rotation in linfa-linalg symmetric_eig) carrying each other's (b may be truncated away); pca:solver-breakdown:inconsistent-components = full-space path, lambda_k < {GARBAGE_TAIL:e}*lambda_1, a component that is no eigenvector within {RESID_MAX:e} of its own variance and no member of a set of Ritz pairs; pca:solver-breakdown:eigenvector-pair-rotated = full-space path, exact answer except two components a<b that span the eigen-plane span{{e_a,e_b}} but are rotated in it by at most {ROT_MAX} rad, with sigma_a^2/(n-1), sigma_b^2/(n-1) equal to the Rayleigh quotients of the rotated vectors and cov(z_a,z_b) = sin*cos*(lambda_a-lambda_b) (the form the defect takes after linfa's sigma_j = |Xc v_j| post-processing); every other deviation fails under the ordinary signatures (pca:singular-value, pca:subspace, pca:retained-variance, pca:whitened-covariance, ...)"),
             format!("pca:ritz-residual: |C v_j - (sigma_j^2/(n-1)) v_j| <= {RITZ_SLACK} * 1e-10 * max(trace C, 1/(n-1)) (the stopping tolerance linfa configures: precision 1e-5*|Xc|_F, squared by linfa-linalg, on the eigenproblem of Xc^T Xc) is asserted where LOBPCG runs inside its domain and is not cut short by its iteration limit: 5k <= p, 2n >= 10p, relative gap at k >= {RITZ_MIN_GAP}; measured on the unchanged tree (12 quick seeds, about 240 000 such fits): all within 1 x the tolerance. Outside that regime the unchanged tree itself leaves residuals up to ~3e3 x the tolerance (clustered trailing eigenvalues, iteration limit 2n), so nothing tighter than the lambda_1-scaled TAU obligations can be asserted there"),
             "a panic of fit whose payload is linfa-linalg's `NaN values in array` AND whose recorded site is linfa-linalg .../eigh.rs is signature pca:solver-breakdown:nan-panic; any other panic (other payload or other site) is panic:fit".into(),
             "exactly k components are expected inside the design domain (the solver's rank cut-off pinned by test_explained_variance_cutoff is far below it)".into(),
